@@ -12,12 +12,16 @@ package k8s_plugins
 //@ define keyUID(key ref) string = string(unbox(key, "types.UID"))
 //@ func (*sync.Map).Store
 //@   props C11
+//@   trusted
+//@   note library (sync.Map): modelled by the ghost table podStateOf
 //@   modifies family(podStateOf(""))
 //@   ensures podStateOf(keyUID(key)) == unbox(value, "*PodState")
 //@   ensures forall u string :: u != keyUID(key) ==> podStateOf(u) == old(podStateOf(u))
 //@ end
 //@ func (*sync.Map).LoadAndDelete
 //@   props C11
+//@   trusted
+//@   note library (sync.Map): modelled by the ghost table podStateOf
 //@   modifies family(podStateOf(""))
 //@   ensures forall u string :: u != keyUID(key) ==> podStateOf(u) == old(podStateOf(u))
 //@   ensures result1 == (old(podStateOf(keyUID(key))) != nil)
